@@ -17,4 +17,16 @@ def run(chk):
     b = {short(callee(c)) for c in sw.calls() if callee(c)}
     chk.saw(se)
     chk.ob("C03-D2.route", se.name, "evaluate and getInterpolationWeights share cacheBasisValues", "cacheBasisValues" in a and "cacheBasisValues" in b, se.where, "evaluate: %s" % sorted(x for x in a if "cache" in x))
-    return expl
+    from rules import vander, workset
+    db.load_all()
+    chk.rule("C03-D3.vandermonde", "local polynomial surpluses by the Kronecker algorithm: columns and basis values of the sparse 1-D Vandermonde pattern agree (obligations of C01-D5)")
+    nv = vander.van_rule(chk, db, "C03-D3.vandermonde")
+    nw = vander.walk_rule(chk, db, "C03-D3.vandermonde")
+    chk.floor("C03-D3.vandermonde", nv, 30, "paired appends in van_matrix")
+    chk.floor("C03-D3.vandermonde", nw, 5, "ancestor walks in van_matrix")
+    chk.rule("C03-D4.workset", "every selection between the loaded and the needed point set (the set whose space getGlobalPolynomialSpace lists, evaluate() uses and getInterpolationWeights spans) "
+                               "takes the loaded points whenever there are any")
+    ns = workset.workset_rule(chk, db, "C03-D4.workset")
+    chk.floor("C03-D4.workset", ns, 35, "work-set selections in the grid classes")
+    return expl + (" Added: column/value agreement of the Kronecker Vandermonde pattern and the work-set selection of every grid method (the listed space, the evaluated surrogate and the weights "
+                   "refer to the same point set).")
